@@ -188,6 +188,12 @@ def _to_graph(G):
 def _content_ok(G, spec, m, label):
     g = _to_graph(G)
     f = []
+    import copy as _copy
+    import pickle as _pickle
+    for how, h in (('deepcopy', _copy.deepcopy(g)), ('pickle', _pickle.loads(_pickle.dumps(g)))):
+        a, b = _encode_outcome(g, m), _encode_outcome(h, m)
+        if a != b:
+            return [('copied-graph-encodes-differently', '%s: original %s, %s %s' % (label, short(a, 200), how, short(b, 200)))]
     for v in sorted(g.variables(), key=repr):
         try:
             s = penman.encode(g, top=v, model=m, indent=None)
